@@ -282,7 +282,9 @@ def gen_population(rng, cfg, workdir, scale=1.0, big_dir=None, late_dirs=0, deep
             tlen = rng.weighted([(rng.range(1, 59), 5), (rng.range(60, 200), 3), (rng.range(200, min(bs - 1, 1000)), 1)])
             target = "".join(NAME_CHARS[rng.below(len(NAME_CHARS))] for _ in range(tlen))
             cmds.append('symlink "%s" "%s"' % (path, target))
-            if special_xattrs and "ext_attr" in feats and rng.chance(0.5):
+            if special_xattrs and "ext_attr" in feats and rng.chance(0.5) and not ("inline_data" in feats and tlen >= 60):
+                # (not on an inline-data symlink: e2fsck pass 1 skips check_blocks() for those and never accounts their EA
+                # block -- `e2fsck -fy` frees it; recorded in DESIGN.md as an observation outside the listed properties)
                 cmds.append('ea_set -f "%s" "%s" "trusted.sx%d"' % (host(rng.bytes(rng.choice([8, 120, 300]))), path, rng.below(100)))
         elif kind == "node":
             t = rng.choice(["p", "c", "b"])
